@@ -1,14 +1,16 @@
+\* L1 theorems on every (table, call) pair of one dispatcher object: three classes, arities 1..3
 SPECIFICATION Spec
 CONSTANTS
-  Kinds <- KMapDyn
+  Kinds <- KMapFast
   Arities = {1, 2, 3}
-  NXs = {0, 1, 2}
+  NXs = {0, 1, 3}
   K = 3
   MaxHist = 100
   MaxCells = 2
   OpClasses <- OpsTable
   EmitMode <- ModeNone
+  Plans <- NoPlans
 CONSTRAINT Bound
 VIEW absvars
 INVARIANTS TypeOK OutcomeOK DispatchExact
-PROPERTIES LookupsPure OneCell
+PROPERTIES LookupsPure OneCell CopiesAreValues
